@@ -44,6 +44,7 @@ fn base(channels: usize, bits: usize, block: usize, nfull: usize, residue: usize
         read_seed: 0,
         faults: vec![],
         hashq_cap: 16,
+        probe_reads: vec![],
         pre: None,
     }
 }
